@@ -41,6 +41,27 @@ TEMPLATES = {
 }
 
 
+# Named elements whose names are also attributes or methods of Node / of the AST dict.  One template per name; whatever
+# goes wrong in it is reported under one signature per name (a recorded finding for the names listed in known_findings.json).
+NODE_ATTRIBUTE_NAMES = ['text', 'line', 'parent', 'ast', 'children', 'dump', 'clone', 'asjson', 'parseinfo', 'ctx', 'comments', 'endline',
+                        'items', 'keys', 'values', 'update', 'get', 'type', 'pos', 'col', 'lineno', 'symbol', 'name', 'exp', 'children_list']
+for _n in NODE_ATTRIBUTE_NAMES:
+    TEMPLATES[f'element-name-{_n}'] = ("start::{p}S: " + _n + ":'a' other:['b'] kid:[k] $ ;\n\nk::{p}K: v:'c' ;\n", ['a', 'b', 'c', ' '])
+
+
+class _Renaming:
+    """Merge proxy: every violation raised while a template of the element-name family runs gets that family's signature."""
+
+    def __init__(self, m, sig):
+        self._m, self._sig = m, sig
+
+    def violation(self, signature, **detail):
+        self._m.violation(self._sig, kind=signature, **detail)
+
+    def __getattr__(self, k):
+        return getattr(self._m, k)
+
+
 class TagTypes:
     """Reference semantics: marks the places where a typed rule returned."""
 
@@ -288,8 +309,10 @@ def load_generated_model(gtext, name):
 def shard(m, items, maxlen=4):
     import tatsu
     from tatsu.exceptions import ParseException
+    real_m = m
     for tname, variant in items:
         tpl, alpha = TEMPLATES[tname]
+        m = _Renaming(real_m, 'iso/element-name-collides-with-node-attribute/' + tname[len('element-name-'):]) if tname.startswith('element-name-') else real_m
         prefix = f'{tname.replace("-", "").title()}{variant}'
         gtext = tpl.format(p=prefix)
         where0 = dict(grammar=gtext)
@@ -323,12 +346,19 @@ def shard(m, items, maxlen=4):
                 continue
             if not ok:
                 continue
-            iso(m, where, ref, built)
-            check_parseinfo(m, where, model, text)
-            n = check_navigation(m, where, built)
-            if n > 1:
-                m.add('nontrivial')
-            check_dispatch(m, where, built, prefix)
+            try:
+                iso(m, where, ref, built)
+                check_parseinfo(m, where, model, text)
+                n = check_navigation(m, where, built)
+                if n > 1:
+                    m.add('nontrivial')
+                check_dispatch(m, where, built, prefix)
+            except Exception as e:  # noqa
+                if not tname.startswith('element-name-'):
+                    raise
+                # the element's value sits where a method of the node was: children(), parseinfo, ... cannot be used
+                m.violation(f'node-interface-unusable/{type(e).__name__}', error=str(e)[:200], **where)
+                continue
             # generated model module
             try:
                 gbuilt = model.parse(text, semantics=gensem())
@@ -336,8 +366,13 @@ def shard(m, items, maxlen=4):
                 m.violation(f'generated-model-raises/{type(e).__name__}', error=str(e)[:200], **where)
                 continue
             m.add('evaluations')
-            iso(m, dict(where, via='generated-model-module'), ref, gbuilt)
-            check_navigation(m, dict(where, via='generated-model-module'), gbuilt)
+            try:
+                iso(m, dict(where, via='generated-model-module'), ref, gbuilt)
+                check_navigation(m, dict(where, via='generated-model-module'), gbuilt)
+            except Exception as e:  # noqa
+                if not tname.startswith('element-name-'):
+                    raise
+                m.violation(f'node-interface-unusable/{type(e).__name__}', error=str(e)[:200], via='generated-model-module', **where)
         m.sample({'template': tname, 'grammar': gtext})
 
 
